@@ -140,6 +140,10 @@ func (j *journal) deleteDirty(addr ethcmn.Address) {
 
 	j.dirties = append(j.dirties[:idx], j.dirties[idx+1:]...)
 	delete(j.addressToJournalIndex, addr)
+	// the entries behind the removed one have moved down by one
+	for i := idx; i < len(j.dirties); i++ {
+		j.addressToJournalIndex[j.dirties[i].address] = i
+	}
 }
 
 type (
